@@ -250,12 +250,12 @@ def matchfile_from_alignment(
         key_signatures = spart.iter_all(score.KeySignature, m.start, m.end)
 
         for ksig in key_signatures:
-            time_divs = int(tsig.start.t)
+            time_divs = int(ksig.start.t)
             time_beats = float(beat_map(time_divs))
             dpq = int(spart.quarter_duration_map(time_divs))
             beat = int((time_beats - msb) // 1)
 
-            ts_num, ts_den, _ = spart.time_signature_map(tsig.start.t)
+            ts_num, ts_den, _ = spart.time_signature_map(ksig.start.t)
 
             moffset_divs = Fraction(
                 int(time_divs - msd - beat * dpq), (int(ts_den) * dpq)
